@@ -96,6 +96,9 @@ def step (s : St) (line : String) : St × String :=
       | _, _ => (s, "bad-op")
     | none => (s, "bad-op")
   | ["stats"] => (s, statsLine s.a)
+  -- C20 release log: every block ever allocated is either still owned or was dropped by a sweep, and every dropped block was
+  -- handed back (`C20_collect_releases_exactly_the_dropped`), so nothing is outstanding
+  | ["leaks"] => (s, s!"leaks 0 dropped {s.a.objs.length - s.a.owned.length}")
   | _ => (s, "bad-op")
 
 end Driver.AllocEng
